@@ -17,7 +17,7 @@ behaviour of the defects whose fixes are in flight (D46, D47; marked where they 
                          code (`List.foldlM`), which makes code concatenation compositional.
 * labels              — `make_label` produces globally fresh names; the model names a label by the path of
                          the pattern node that creates it plus a kind, so freshness is structural.
-* `cmp`, `cmpProd`    — `translate_pat_comparison`, `translate_product_pat_comparison`
+* `cmp`, `prodCode`, `cmpElems` — `translate_pat_comparison`, `translate_product_pat_comparison`
 * `traverse`          — `traverse_arm_pat` (is some or-pattern still on its left alternative?)
 * `bind`              — `handle_pat_binding`
 * `matchCode`         — the `ExprKind::Match` code: one comparison pass per round of the decision loop,
@@ -143,6 +143,15 @@ def failChain (π : Path) : Nat → List Ty → List Instr
   | _, [] => []
   | i, t :: ts => (if t.isVoid then [] else [Instr.pop]) ++ [.label (lblFail π i)] ++ failChain π (i + 1) ts
 
+/-- `translate_product_pat_comparison` around the element loop `elems` -/
+def prodCode (π : Path) (tys : List Ty) (ps : List Pat) (elems : List Instr × List Path) (D : List Path) :
+    List Instr × List Path :=
+  if ps.isEmpty then ([.pop, .pushBool true], D)
+  else
+    ([.deconStruct] ++ elems.1 ++
+      [.label (lblSuccess π), .pushBool true, .jump (lblEndTuple π), .label (lblFail π 0)] ++
+      failChain π 1 (tys.drop 1) ++ [.pushBool false, .label (lblEndTuple π)], elems.2)
+
 mutual
   /-- `translate_pat_comparison`; returns the code and the updated decision set -/
   def cmp (env : EnumEnv) : Path → Ty → Pat → List Path → List Instr × List Path
@@ -158,8 +167,8 @@ mutual
     | _, _, .float f, D => ([.pushFloat f, .eqFloat], D)
     | _, _, .bool b, D => ([.pushBool b, .eqBool], D)
     | _, _, .str s, D => ([.pushStr s, .eqStr], D)
-    | π, ty, .tuple ps, D => cmpProd env π (productTys ty) ps D
-    | π, ty, .struct _ ps, D => cmpProd env π (productTys ty) ps D
+    | π, ty, .tuple ps, D => prodCode π (productTys ty) ps (cmpElems env π 0 (productTys ty) ps D) D
+    | π, ty, .struct _ ps, D => prodCode π (productTys ty) ps (cmpElems env π 0 (productTys ty) ps D) D
     | π, _, .variant0 _ idx, D =>
       ([.deconVariant, .pushInt idx, .eqInt, .jumpIfFalse (lblTagFail π),
         .pop, .pushBool true, .jump (lblEndVariant π),
@@ -177,30 +186,26 @@ mutual
          res.2)
     | π, _, .variantNamed e idx ps, D =>
       let ftys := (variantFields env e idx).getD []
-      match ps, ftys with
-      | [p], [t] =>
+      if ps.length == 1 then
+        let t := ftys.headD .void
         if t.isVoid then
           ([.deconVariant, .pushInt idx, .eqInt, .jumpIfFalse (lblTagFail π),
             .pop, .pushBool true, .jump (lblEndVariant π),
             .label (lblTagFail π), .pop, .pushBool false, .label (lblEndVariant π)], D)
         else
-          let res := cmp env (π ++ [0]) t p D
+          let res := cmpFirst env π t ps D
           ([.deconVariant, .pushInt idx, .eqInt, .jumpIfFalse (lblTagFail π)] ++ res.1 ++
             [.jump (lblEndVariant π), .label (lblTagFail π), .pop, .pushBool false, .label (lblEndVariant π)],
            res.2)
-      | ps, ftys =>
-        let res := cmpProd env π ftys ps D
+      else
+        let res := prodCode π ftys ps (cmpElems env π 0 ftys ps D) D
         ([.deconVariant, .pushInt idx, .eqInt, .jumpIfFalse (lblTagFail π)] ++ res.1 ++
           [.jump (lblEndVariant π), .label (lblTagFail π), .pop, .pushBool false, .label (lblEndVariant π)],
          res.2)
-  /-- `translate_product_pat_comparison` -/
-  def cmpProd (env : EnumEnv) : Path → List Ty → List Pat → List Path → List Instr × List Path
-    | _, _, [], D => ([.pop, .pushBool true], D)
-    | π, tys, p :: ps, D =>
-      let res := cmpElems env π 0 tys (p :: ps) D
-      ([.deconStruct] ++ res.1 ++
-        [.label (lblSuccess π), .pushBool true, .jump (lblEndTuple π), .label (lblFail π 0)] ++
-        failChain π 1 (tys.drop 1) ++ [.pushBool false, .label (lblEndTuple π)], res.2)
+  /-- the single named field `pats[0]` -/
+  def cmpFirst (env : EnumEnv) : Path → Ty → List Pat → List Path → List Instr × List Path
+    | π, t, p :: _, D => cmp env (π ++ [0]) t p D
+    | _, _, [], D => ([], D)
   /-- the loop over the elements: compare, `JumpIfFalse fail_i`, after the last one `Jump success` -/
   def cmpElems (env : EnumEnv) : Path → Nat → List Ty → List Pat → List Path → List Instr × List Path
     | _, _, _, [], D => ([], D)
@@ -224,9 +229,9 @@ mutual
     | π, .variantPos e idx p, D =>
       if (dataTy env e idx).isVoid then false else traverse env (π ++ [0]) p D
     | π, .variantNamed e idx ps, D =>
-      match ps, (variantFields env e idx).getD [] with
-      | [p], [t] => if t.isVoid then false else traverse env (π ++ [0]) p D
-      | ps, _ => traverseList env π 0 ps D
+      if ps.length == 1 then
+        if (((variantFields env e idx).getD []).headD .void).isVoid then false else traverseList env π 0 ps D
+      else traverseList env π 0 ps D
     | π, .or l r, D =>
       if D.contains π then traverse env (π ++ [1]) r D
       else
@@ -263,13 +268,12 @@ mutual
         ([.deconVariant, .pop] ++ res.1, res.2)
     | π, _, .variantNamed e idx ps, D =>
       let ftys := (variantFields env e idx).getD []
-      match ps, ftys with
-      | [p], [t] =>
-        if t.isVoid then ([.pop], D)
+      if ps.length == 1 then
+        if (ftys.headD .void).isVoid then ([.pop], D)
         else
-          let res := bind env (π ++ [0]) t p D
+          let res := bindList env π 0 ftys ps D
           ([.deconVariant, .pop] ++ res.1, res.2)
-      | ps, ftys =>
+      else
         let res := bindList env π 0 ftys ps D
         ([.deconVariant, .pop, .deconStruct] ++ res.1, res.2)
     | π, ty, .or l r, D =>
